@@ -24,6 +24,7 @@ type sessionPlan struct {
 	Host   int    `json:"host"`
 	CI     bool   `json:"client_initiated"`
 	Gap    int    `json:"gap_ms"`
+	Sub    int    `json:"gap_ns"`  // added to the gap: sub-second part in nanoseconds (instants_test.go)
 	Enc    int    `json:"key_enc"` // how the client's encoder writes its public key: 0 canonical, else a way of keyenc_test.go
 	Chal   uint64 `json:"-"`
 }
@@ -50,6 +51,7 @@ type attackPlan struct {
 const maxSrv = 3
 
 type scenario struct {
+	Phase     int            `json:"start_phase_ns"` // the clock is moved off the whole second by this much before anything is minted (instants_test.go)
 	NSrv      int            `json:"n_srv"`
 	SrvKey    [maxSrv]int    `json:"srv_key"`
 	SrvTTL    [maxSrv]int    `json:"srv_ttl"`
@@ -94,6 +96,7 @@ var quoteDraw = []int{qJunkAfterClose, qJunkAfterClose, qJunkThenQuote, qJunkThe
 func drawScenario(rt *rapid.T) scenario {
 	var sc scenario
 	sel := rapid.IntRange(0, 1<<16-1)
+	sc.Phase = rapid.SampledFrom([]int{0, 1, 1, 1}).Draw(rt, "phase") * drawSubSecond(rt, "phase")
 	sc.NSrv = rapid.SampledFrom([]int{2, 2, 2, 3, 3}).Draw(rt, "nsrv")
 	for i := 0; i < sc.NSrv; i++ {
 		sc.SrvKey[i] = rapid.IntRange(0, 3).Draw(rt, "srvkey")
@@ -118,6 +121,7 @@ func drawScenario(rt *rapid.T) scenario {
 			Host:   rapid.IntRange(0, 1).Draw(rt, "host"),
 			CI:     rapid.Bool().Draw(rt, "ci"),
 			Gap:    rapid.SampledFrom([]int{0, 0, 1, 1000, 2500}).Draw(rt, "gap"),
+			Sub:    rapid.SampledFrom([]int{0, 0, 1}).Draw(rt, "gapsub") * drawSubSecond(rt, "gapsub"),
 			Enc:    rapid.SampledFrom([]int{0, 0, 0, 1}).Draw(rt, "keyenc") * rapid.IntRange(1, nKeyEncs-1).Draw(rt, "keyencway"),
 			Chal:   rapid.Uint64().Draw(rt, "chal"),
 		})
@@ -128,7 +132,7 @@ func drawScenario(rt *rapid.T) scenario {
 			Base:  sel.Draw(rt, "base"),
 			Srv:   rapid.SampledFrom([]int{0, 0, 0, 0, 0, 1, 1, 2}).Draw(rt, "tsrv"),
 			Host:  rapid.SampledFrom([]int{0, 0, 0, 0, 0, 1, 1, 2, 3}).Draw(rt, "thost"),
-			Sleep: rapid.SampledFrom([]int{0, 0, 0, 0, 0, 0, 1, 2, 3, 4, 5, 6, 7, 8, 9, 10}).Draw(rt, "sleep"),
+			Sleep: rapid.SampledFrom([]int{0, 0, 0, 0, 0, 0, 0, 1, 2, 3, 4, 5, 6, 7, 8, 9, 10, 11, 12, 13, 14, 15, 16}).Draw(rt, "sleep"),
 			SNI:   rapid.SampledFrom([]int{0, 0, 0, 0, 0, 0, 0, 1}).Draw(rt, "sni"),
 			Chal:  rapid.Uint64().Draw(rt, "chal"),
 		}
@@ -784,6 +788,18 @@ func sleepFor(class int, mat time.Time, ttl time.Duration) (time.Duration, strin
 		return until(mat.Add(ttl + 1)), "token-ttl+1ns"
 	case 9:
 		return until(mat.Add(ttl + time.Second)), "token-ttl+1s"
+	case 11:
+		return until(mat.Add(challengeTTL + 400*time.Microsecond)), "challenge-ttl+0.4ms"
+	case 12:
+		return until(mat.Add(challengeTTL + 600*time.Microsecond)), "challenge-ttl+0.6ms"
+	case 13:
+		return until(mat.Add(challengeTTL + 400*time.Millisecond)), "challenge-ttl+0.4s"
+	case 14:
+		return until(mat.Add(ttl + 400*time.Microsecond)), "token-ttl+0.4ms"
+	case 15:
+		return until(mat.Add(ttl + 600*time.Microsecond)), "token-ttl+0.6ms"
+	case 16:
+		return until(mat.Add(ttl + 400*time.Millisecond)), "token-ttl+0.4s"
 	default:
 		return 24 * time.Hour, "24h"
 	}
@@ -823,11 +839,14 @@ func TestServerProvenance(t *testing.T) {
 			}
 		}
 		hx.Bubble(t, rt, func() {
+			if sc.Phase > 0 {
+				time.Sleep(time.Duration(sc.Phase))
+			}
 			w := newWorld(rt, conf, idents)
 			var steps []step
 			for _, sp := range sc.Sessions {
-				if sp.Gap > 0 {
-					time.Sleep(time.Duration(sp.Gap) * time.Millisecond)
+				if sp.Gap > 0 || sp.Sub > 0 {
+					time.Sleep(time.Duration(sp.Gap)*time.Millisecond + time.Duration(sp.Sub))
 				}
 				ss := w.honestEnc(sp.Client, w.srv[sp.Srv], hostNames[sp.Host], sp.CI, challengeText(sp.Chal), sp.Enc, int(sp.Chal>>8))
 				for _, s := range ss {
@@ -840,6 +859,9 @@ func TestServerProvenance(t *testing.T) {
 					flow = "ci"
 				}
 				labels = append(labels, "honest:"+flow+":"+idents[sp.Client].Type, "srvkey:"+w.srv[sp.Srv].ident.Type)
+				if len(ss) > 0 {
+					labels = append(labels, "issue-frac:"+fracClass(ss[len(ss)-1].matTime))
+				}
 				if sp.Enc != 0 {
 					nontrivial = true
 					fp = append(fp, fmt.Sprintf("session|%s|%s|keyenc=%s", flow, idents[sp.Client].Type, keyEncNames[sp.Enc]))
@@ -885,6 +907,12 @@ func TestServerProvenance(t *testing.T) {
 					a.params = cloneParams(s.params)
 					baseSrv, baseHost, mat, victim = s.srv, s.host, s.matTime, s.client
 					baseName = s.name
+				}
+				baseKind := "none" // which lifetime governs the base request
+				if _, ok := getParam(a.params, "bearer"); ok {
+					baseKind = "token"
+				} else if _, ok := getParam(a.params, "sig"); ok {
+					baseKind = "challenge"
 				}
 				minter := w.srv[baseSrv]
 				target := minter
@@ -944,6 +972,14 @@ func TestServerProvenance(t *testing.T) {
 							"xkey:len"+keyLenClass(len(minter.hmacKey))+"->len"+keyLenClass(len(target.hmacKey)))
 					}
 				}
+				// Relative to the end of a lifetime the sub-second part of the issue instant matters. It is
+				// counted where the lifetime is the one of the material shown (a token around TokenTTL, a
+				// challenge answer around the challenge lifetime).
+				atExpiry := ap.Sleep >= 2 && ap.Sleep != 10
+				if atExpiry {
+					sleepL += "@" + fracClass(mat)
+				}
+				ownLifetime := atExpiry && strings.HasPrefix(sleepL, baseKind+"-ttl")
 				desc := fmt.Sprintf("%s|%s|srv=%s|host=%s|sleep=%s", baseName, strings.Join(opd, "+"), tgtL, hostL, sleepL)
 				fp = append(fp, desc)
 				mutated := len(ap.Ops) > 0 || target != minter || ap.Host != 0 || strings.HasPrefix(baseName, "cont-bound-other")
@@ -959,7 +995,10 @@ func TestServerProvenance(t *testing.T) {
 						labels = append(labels, "accepted-after-mutation")
 					}
 				}
-				labels = append(labels, "base:"+baseName, "outcome:"+out, "target:"+tgtL, "host:"+hostL, "sleep:"+sleepL, fmt.Sprintf("nops:%d", len(ap.Ops)))
+				labels = append(labels, "base:"+baseName, "outcome:"+out, "target:"+tgtL, "host:"+hostL, "sleep:"+strings.SplitN(sleepL, "@", 2)[0], fmt.Sprintf("nops:%d", len(ap.Ops)))
+				if ownLifetime && !mutated { // genuine material shown unaltered to its own server around the end of its lifetime
+					labels = append(labels, "expiry:"+sleepL+":"+strings.SplitN(out, ":", 2)[0])
+				}
 				for _, o := range opd {
 					seg := strings.Split(o, ":")
 					if seg[0] == "quote" && len(seg) > 3 {
